@@ -37,6 +37,7 @@ var urlsPool = []string{"https://issues/1", "http://x/y?z=1", ""}
 type Gen struct {
 	rng     *RNG
 	nextID  int
+	nextTok int
 	hostile bool
 	// knobs
 	allowHops    bool
